@@ -8,7 +8,7 @@ import z3
 from . import ctx as C
 from .symex import Unsupported
 
-MODULES = ["c05", "c03", "c12", "builders", "c19", "c08", "kernels", "printer", "serde", "c06", "c11", "c15", "c16", "scanners", "c10"]
+MODULES = ["c05", "c03", "c12", "builders", "c19", "c08", "kernels", "printer", "serde", "c06", "c11", "c15", "c16", "scanners", "c10", "options"]
 
 
 class Claim:
